@@ -404,6 +404,11 @@ func (handle *writeTxnHandle) Commit() ReadTxn {
 	// the root lock.
 	currentRoot := *db.root.Load()
 	root := txn.tableEntries
+	if len(currentRoot) > len(root) {
+		// Tables were registered after this transaction took its copy of the
+		// root. They are only ever appended, so carry them over.
+		root = append(root, currentRoot[len(root):]...)
+	}
 	var initChansToClose []chan struct{}
 
 	// Insert the modified tables into the root tree of tables.
